@@ -38,10 +38,17 @@ STR_TYPES = ('string', 'text', 'url', 'person')
 TUPLE_RE = re.compile(r'^[1-9][0-9]*-tuple$')
 
 
+# The repository's own tests (test_property.test_dtype, test_section.test_create_property) pin the two
+# shorthands as stored verbatim, so they count as valid spellings of 'string' and 'boolean' here.
+ALIASES = {'str': 'string', 'bool': 'boolean'}
+
+
 def canon_dtype(d):
     """Canonical name for a stored/requested dtype, or None if it is not a valid odML type."""
     if not isinstance(d, str):
         return None
+    if type(d) is str and d in ALIASES:
+        return ALIASES[d]
     for c in CANON:
         if d == c and len(d) == len(c):
             return c
@@ -376,7 +383,7 @@ PRIORITY = ('dtype-valid', 'values-is-list', 'value-has-type-of-dtype', 'dtype-c
 def value_type(label):
     """Coarse class of an argument: its Python type (empty containers/strings marked)."""
     if label in DTYPE and label not in VALUE:
-        return 'dtype:' + label.replace('DType.', '')
+        return 'dtype:' + family(label)
     if label.startswith('source-'):
         return 'property-' + label.split('-')[1]
     v = VALUE[label]
